@@ -342,6 +342,11 @@ def rule_convenience(ctx):
     ctx.ob('C17.cmds', f'{sn.fq}:sequence-values', any('tuple' in t and 'list' in t for t in seqtests),
            f'/n_setn takes control, count, values...: a tuple of values is counted and spread like a list (found tests {seqtests}; '
            f'the argument conversion keeps tuples)', sn.node, nm)
+    bsn = ctx.repo.cls('sc3.synth.buffer:Buffer').methods['setn']
+    seqb = [norm(x.test) for x in walk_local(bsn.node) if isinstance(x, ast.If) and 'isinstance(' in norm(x.test)]
+    ctx.ob('C17.cmds', f'{bsn.fq}:sequence-values', any('tuple' in t and 'list' in t for t in seqb),
+           f'/b_setn takes index, count, values...: Buffer.setn counts and spreads a tuple like a list, as Node.setn does (found tests {seqb})',
+           bsn.node, bsn.module)
     fl = node.methods['fill']
     sends = [c for c in U.calls(fl.node) if U.method_name(c) == 'send_msg']
     raw = [norm(a) for c in sends for a in c.args[2:] if not isinstance(a, ast.Starred)]
@@ -436,6 +441,9 @@ def run(ctx):
 
 
 MUTANTS = [
+    dict(rule='C17.cmds', name='(fix reverted) Buffer.setn spreads lists only', file='sc3/synth/buffer.py',
+         old="            if isinstance(values, (list, tuple)):\n                nargs.extend([control, len(values), *values])",
+         new="            if isinstance(values, list):\n                nargs.extend([control, len(values), *values])"),
     dict(rule='C17.range', name='free_all emits one /b_free per block (seed C17-g)', file='sc3/synth/server.py',
          old="            for i in range(block.address, block.address + block.size):\n                bundle.append(['/b_free', i])",
          new="            bundle.append(['/b_free', block.address])"),
